@@ -29,6 +29,16 @@ from tornado.iostream import BaseIOStream
 FD = 7
 
 
+def conc(x, lo, hi):
+    """Return x as a concrete int by branching on its value (lo..hi).  Sizes that reach a
+    bytearray / memoryview slice are made concrete this way (a fork per value, exhaustive over
+    the bounded domain) so that buffers stay real bytearrays instead of CrossHair sequence models."""
+    for v in range(lo, hi + 1):
+        if x == v:
+            return v
+    raise AssertionError("conc: %r outside %d..%d" % (x, lo, hi))
+
+
 class Kernel:
     def __init__(self, data=b"", rscript=(), eofpos=None, cause=0, wscript=(), wfail=None,
                  werrno=errno.EPIPE):
@@ -97,6 +107,7 @@ class FakeFdStream(BaseIOStream):
             n = a
         if remaining < n:
             n = remaining
+        n = conc(n, 1, len(buf))
         buf[:n] = k.data[k.rpos:k.rpos + n]
         k.rpos += n
         return n
@@ -119,7 +130,7 @@ class FakeFdStream(BaseIOStream):
                 raise BlockingIOError(errno.EAGAIN, "would block (scripted)")
             n = len(data)
             if a < n:
-                n = a
+                n = conc(a, 0, n)
         if n > 0:
             k.sent += bytes(data[:n])      # copy; the view is not retained
         return n
